@@ -1,5 +1,6 @@
 import Gallia.Proofs.Lemmas.Lifecycle
 import Gallia.Gen.C15Exit
+import Gallia.Model.LifecycleDb
 /-
   C15 — Every run leaves a consistent exit code, META.json, log file and database record.
 
@@ -693,5 +694,57 @@ example : (entryPointW {} { lock := .busy, now := 7, runs := [{ name := 3, metaT
             { lock := true, art := true } { main := some (.sysExit 4) }).latest = some 9
     ∧ (entryPointW {} { lock := .busy, now := 7, runs := [{ name := 3, metaTag := some 1 }, { name := 9, metaTag := some 0 }] }
             { lock := true, art := true } { main := some (.sysExit 4) }).waited = true := by decide
+
+/-! ### faults at the individual awaited statements inside the database calls (Model/LifecycleDb.lean) -/
+section DbFaults
+open Gallia.Lifecycle.DbFault
+
+/-- For ANY fault point (call, index of the awaited statement - no bound -, statement fails / Ctrl-C while it is awaited), any
+    command kind and whatever the command's own code ends with: the run of the model satisfies every demand of the property
+    (exit code from the mapping, the run entry absent or completed with that very code, connection closed, finally block
+    run to its end) exactly when the fault point is not the recorded one (`Fault.bad`: Ctrl-C at the INSERT). -/
+theorem dbfault_consistent_iff (k : Kind) (f : Fault) (body : Option Exc) :
+    DbFault.violations k (some f) body (run k (some f) body) = [] ↔ f.bad = false := by
+  obtain ⟨c, i, m⟩ := f
+  have hc : (ErrClass.other ∈ catched k) = False := by cases k <;> simp [catched]
+  have hm : (mapExit {} k body).2 = false := by
+    unfold mapExit
+    split
+    · rfl
+    · rename_i e; cases e <;> rfl
+  generalize hx : mapExit {} k body = x at hm
+  obtain ⟨code, esc⟩ := x
+  simp only at hm
+  subst hm
+  have h70 : mapExit {} k (some (.err .other)) = (70, false) := by
+    simp [mapExit, dispatch, ladder, handle, Exc.type, hc, SOFTWARE]
+  have h130 : mapExit {} k (some .cancelled) = (130, false) := by
+    simp [mapExit, dispatch, ladder, handle, Exc.type, SIGINT_EXIT]
+  have a1 : awaits .connect = 5 := by decide
+  have a2 : awaits .insert = 2 := by decide
+  have a3 : awaits .complete = 2 := by decide
+  have a4 : awaits .disconnect = 1 := by decide
+  cases c <;> cases m <;>
+    (match i with
+     | 0 | 1 | 2 | 3 | 4 | n + 5 =>
+       simp [DbFault.violations, run, tryDb, call, faultOf, stmts, runStmts, Stmt.awaited, Db.apply, Db.close, allowed, Fault.reached,
+             a1, a2, a3, a4, rowDemanded, Fault.bad, hx, h70, h130, SOFTWARE, SIGINT_EXIT])
+
+/-- without a fault the statement-level model is `dbInsert` + the database part of `finish`: row completed with the code -/
+theorem dbfault_none_refines (k : Kind) (body : Option Exc) :
+    run k none body = ⟨if (mapExit {} k body).2 then .escCancelled else .ret (mapExit {} k body).1,
+                       some (some (mapExit {} k body).1), true, true, false⟩ := by
+  simp [run, tryDb, call, faultOf, stmts, runStmts, Stmt.awaited, Db.apply, Db.close]
+
+-- non-vacuity: a good fault point (the commit of insert_run_meta fails: the row is completed with 70), a bad one, one never reached
+example : run .plain (some ⟨.insert, 1, .raise⟩) none = ⟨.ret 70, some (some 70), true, true, true⟩
+    ∧ (⟨.insert, 1, .raise⟩ : Fault).bad = false
+    ∧ run .plain (some ⟨.insert, 1, .cancel⟩) (some (.sysExit 3)) = ⟨.ret 130, some (some 130), true, true, true⟩
+    ∧ run .uds (some ⟨.insert, 0, .cancel⟩) none = ⟨.ret 130, some none, true, true, true⟩
+    ∧ run .plain (some ⟨.complete, 0, .cancel⟩) (some (.sysExit 3)) = ⟨.ret 3, some (some 3), true, true, true⟩
+    ∧ run .plain (some ⟨.complete, 0, .raise⟩) none = ⟨.ret 0, some none, true, true, true⟩
+    ∧ run .plain (some ⟨.disconnect, 7, .raise⟩) (some (.sysExit 4)) = ⟨.ret 4, some (some 4), true, true, false⟩ := by decide
+
+end DbFaults
 
 end Gallia.C15
